@@ -251,7 +251,10 @@ def obligations(prop, t, p, val, compress):
                 for n, v in ins:
                     e = sem.step(sem.word_of(v, n), regs, pc, n)
                     regs, pc = sem.execute(e, regs, pc, n)
-                obs.append(('line %d %s lands on %s' % (i, l['head'], tr[1]), pc == T))
+                # a transfer that itself sits at an odd address (code behind odd-sized data) can never be
+                # fetched, and jalr clears bit 0 of the odd target: nothing is demanded of it.  From an even
+                # address an odd target is refused by both forms (odd jal / jalr immediates), so nothing is lost
+                obs.append(('line %d %s lands on %s' % (i, l['head'], tr[1]), z3.Or(z3.Extract(0, 0, pc0) == 1, pc == T)))
     elif prop == 'C08':
         for i, l in enumerate(t.lines, 1):
             if l['kind'] == 'data' and l.get('value'):
